@@ -878,14 +878,14 @@ class C13(core.Check):
         case.update({"live": True, "calls": calls, "method": calls[-1][0], "max_iterations": calls[-1][1]})
         return case
 
-    def _gen_grow(self, rng: random.Random) -> dict:
+    def _gen_grow(self, rng: random.Random, tier: str = "thorough") -> dict:
         """round 6c: the optimizer grows between calls.  optimize() is called two or three times on ONE optimizer; before
         the second (third) call another clamp is added (sometimes leading a translation link) on a vertex that has not
         moved so far.  Clamp types whose constructor finds its parameters exactly (free, plane / line through the
         vertex).  Judged per call: only vertices clamped (or following a clamped leader) at the time of a call may
         move in it, quality never gets worse, every clamp / link added so far keeps its constraint."""
         kind = rng.choice(["mesh", "sketch"])
-        dims = rng.choice([[2, 2, 1], [2, 1, 2], [2, 2, 2]]) if kind == "mesh" else rng.choice([[3, 2, 0], [3, 3, 0], [2, 2, 0]])
+        dims = rng.choice([[2, 2, 1], [2, 1, 2], [2, 2, 2] if tier == "thorough" else [1, 2, 2]]) if kind == "mesh" else rng.choice([[3, 2, 0], [3, 3, 0], [2, 2, 0]])
         case: Dict[str, Any] = {"kind": kind, "dims": dims, "frame": rng.choice(list(FRAMES)), "stream": "grow"}
         lat = lattice_points(case)
         amp = 10
@@ -1122,9 +1122,9 @@ class C13(core.Check):
         return out
 
     def gen_cases(self, rng: random.Random, tier: str) -> List[dict]:
-        n = 16 if tier == "quick" else 308  # round 6b: 8 of the quick runs moved to thorough
+        n = 12 if tier == "quick" else 312  # rounds 6b / 6d: 12 of the quick runs moved to thorough
         cases = [self._gen_valid(rng, tier) for _ in range(n)]
-        cases += [self._gen_symfree(rng) for _ in range(3 if tier == "quick" else 20)]
+        cases += [self._gen_symfree(rng) for _ in range(2 if tier == "quick" else 21)]
         cases += [self._gen_overlap(rng, tier) for _ in range(3 if tier == "quick" else 31)]
         cases += [self._gen_degenerate(rng) for _ in range(3 if tier == "quick" else 20)]
         cases += [self._gen_deglink(rng) for _ in range(4 if tier == "quick" else 25)]
@@ -1136,8 +1136,8 @@ class C13(core.Check):
         for _ in range(1 if tier == "quick" else 5):
             cases += self._gen_boundary(rng, tier)
         # round 6 (drawn last: the cases above are the ones earlier rounds saw for the same seed)
-        cases += [self._gen_nearideal(rng) for _ in range(6 if tier == "quick" else 60)]
-        cases += [self._gen_grow(rng) for _ in range(3 if tier == "quick" else 40)]
+        cases += [self._gen_nearideal(rng) for _ in range(4 if tier == "quick" else 62)]
+        cases += [self._gen_grow(rng, tier) for _ in range(2 if tier == "quick" else 41)]
         cases += [self._gen_defaults(rng, tier) for _ in range(1 if tier == "quick" else 10)]
         c = self._gen_valid(rng, tier, "boundary")
         c.update({"max_iterations": 0, "report": True})
